@@ -22,6 +22,7 @@ package dot
 
 import (
 	"fmt"
+	"html"
 	"reflect"
 )
 
@@ -428,17 +429,17 @@ func (g *Group) String() string {
 func (r *Result) Attributes() string {
 	switch {
 	case r.Name != "":
-		return fmt.Sprintf(`label=<%v<BR /><FONT POINT-SIZE="10">Name: %v</FONT>>`, r.Type, r.Name)
+		return fmt.Sprintf(`label=<%v<BR /><FONT POINT-SIZE="10">Name: %v</FONT>>`, html.EscapeString(r.Type.String()), html.EscapeString(r.Name))
 	case r.Group != "":
-		return fmt.Sprintf(`label=<%v<BR /><FONT POINT-SIZE="10">Group: %v</FONT>>`, r.Type, r.Group)
+		return fmt.Sprintf(`label=<%v<BR /><FONT POINT-SIZE="10">Group: %v</FONT>>`, html.EscapeString(r.Type.String()), html.EscapeString(r.Group))
 	default:
-		return fmt.Sprintf(`label=<%v>`, r.Type)
+		return fmt.Sprintf(`label=<%v>`, html.EscapeString(r.Type.String()))
 	}
 }
 
 // Attributes composes and returns a string of the Group node's attributes.
 func (g *Group) Attributes() string {
-	attr := fmt.Sprintf(`shape=diamond label=<%v<BR /><FONT POINT-SIZE="10">Group: %v</FONT>>`, g.Type, g.Name)
+	attr := fmt.Sprintf(`shape=diamond label=<%v<BR /><FONT POINT-SIZE="10">Group: %v</FONT>>`, html.EscapeString(g.Type.String()), html.EscapeString(g.Name))
 	if g.ErrorType != noError {
 		attr += " color=" + g.ErrorType.Color()
 	}
